@@ -9,6 +9,22 @@ BASELINE = ("cd /repo && env -u PYCRAFT_VERIF /venv/bin/python -m pytest -ra -q 
             "--timeout=900 --continue-on-collection-errors")
 
 CHECKS = {
+    'C19': dict(
+        technique='TLA+ model of the token (AuthToken.tla): one transition per (stored-field subset, operation, reply status x body '
+                  'shape) fixing request, outcome and next state; TLC checks the invariants and emits every transition; one '
+                  'implementation test per transition against a recording stand-in for the service, plus model-following operation '
+                  'sequences (S->I)',
+        text='AuthToken.tla covers the 32 token states (every subset of the five fields), 7 operations (authenticate with and '
+             'without invalidate_previous, refresh, validate, invalidate, join, sign_out) and 30 reply shapes ({200,204,400,403,500,503} '
+             'x {result, error object, partial error object, non-JSON, empty}); invariants ErrorsLeaveStateUntouched, '
+             'OnlyAuthRefreshStore, JoinNeedsAuthentication, ValidateTrueOnlyOn204, SuccessMakesAuthenticated, ErrorRepliesRaise. Every '
+             'one of the 6720 transitions is executed against the real AuthenticationToken: the request that reached the stand-in '
+             '(endpoint URL, JSON content type, payload incl. agent block and the clientToken rule, or no request at all), the return '
+             'value or YggdrasilError (status code, service error fields or the malformed message), the stored fields afterwards and '
+             'the authenticated property are compared with the model.',
+        note='Trusted: TLC. The service is a stand-in inside the process (requests.post replaced by a recorder returning real '
+             'requests.Response objects). Combinations the property does not constrain are recorded as "any".',
+        design='5/C19'),
     'C18': dict(
         technique='AES-128 and CFB8 written in TLA+ (AES128.tla with FIPS-197 vectors as ASSUMEs, CFB8.tla); traces of the real '
                   'encryption wrappers (plaintext and ciphertext of every send / read / recv), of os.urandom and of the RSA blocks the '
